@@ -28,3 +28,7 @@ Definition i128min : Z := (-170141183460469231731687303715884105728)%Z.
 Definition add64 (a b : N) : res N := if (a + b <=? u64max)%N then Ok (a + b)%N else Panic.
 (** u64 subtraction: panics on underflow. *)
 Definition sub64 (a b : N) : res N := if (b <=? a)%N then Ok (a - b)%N else Panic.
+
+(** Flags of a [std::fs::OpenOptions] call site (filled in by Generated.v from the source). *)
+Record open_flags := { of_read : bool; of_write : bool; of_create : bool; of_create_new : bool;
+                       of_truncate : bool; of_append : bool }.
